@@ -17,8 +17,10 @@ import subprocess
 import sys
 import time
 
-ROOT = "/verif"
-REPO = "/repo"
+# VERIF_ROOT / VERIF_REPO are only used by bin/mutcheck (private copies for mutation testing);
+# the registered checks always run with the defaults.
+ROOT = os.environ.get("VERIF_ROOT", "/verif")
+REPO = os.environ.get("VERIF_REPO", "/repo")
 BUILD = os.path.join(ROOT, ".build")
 COQ = os.path.join(ROOT, "coq")
 TH = os.path.join(COQ, "theories")
